@@ -15,7 +15,7 @@ import (
 
 // ---- command trees: generation ----
 
-func genTree(r *rand.Rand, depth int, cnt *int, parent *drive.Cmd, name string, typed bool) *drive.Cmd {
+func genTree(r *rand.Rand, depth int, cnt *int, parent *drive.Cmd, name string, typed bool, version bool, deep bool) *drive.Cmd {
 	t := &drive.Cmd{ID: *cnt, Parent: parent}
 	*cnt++
 	t.Aliases = []string{name}
@@ -24,6 +24,12 @@ func genTree(r *rand.Rand, depth int, cnt *int, parent *drive.Cmd, name string, 
 	}
 	t.Prog = gen.GenProg(r, gen.Cfg{MaxOpts: 4, Depth: 1 + r.Intn(2)})
 	if r.Intn(3) == 0 {
+		t.Prog.Spec = ""
+		t.Prog.AST = nil
+	}
+	if version && parent != nil && r.Intn(3) == 0 {
+		// a sub-command with its own -V/--version flag: the application's version flag only counts in first position
+		t.Prog.Opts = append(t.Prog.Opts, &OptDecl{Names: []string{"V", "version"}, Flag: true})
 		t.Prog.Spec = ""
 		t.Prog.AST = nil
 	}
@@ -43,8 +49,11 @@ func genTree(r *rand.Rand, depth int, cnt *int, parent *drive.Cmd, name string, 
 	t.LongDesc = "LONG-" + t.Path()
 	if depth > 0 {
 		nk := r.Intn(4)
+		if deep {
+			nk = 1 + r.Intn(2) // deep trees: 1-2 sub-commands per level, down to six levels
+		}
 		for k := 0; k < nk; k++ {
-			t.Kids = append(t.Kids, genTree(r, depth-1, cnt, t, fmt.Sprintf("c%d", *cnt), typed))
+			t.Kids = append(t.Kids, genTree(r, depth-1, cnt, t, fmt.Sprintf("c%d", *cnt), typed, version, deep))
 		}
 	}
 	return t
@@ -118,7 +127,7 @@ func treeInvocation(r *rand.Rand, root *drive.Cmd, version bool, mutateP int) (a
 		if ok {
 			argv = append(argv, seg...)
 		}
-		if len(cur.Kids) == 0 || r.Intn(4) == 0 {
+		if len(cur.Kids) == 0 || r.Intn(5) == 0 {
 			break
 		}
 		k := cur.Kids[r.Intn(len(cur.Kids))]
@@ -264,8 +273,34 @@ func treeFor(c *core.Ctx, tag string, per int, typed bool) (*drive.Cmd, bool) {
 	ti := c.Index / per
 	r := rand.New(rand.NewSource(core.Mix(c.Seed+int64(len(tag))*977+int64(tag[len(tag)-1]), ti)))
 	cnt := 0
-	root := genTree(r, 3, &cnt, nil, "app", typed)
-	return root, r.Intn(3) == 0
+	version := r.Intn(3) == 0
+	deep := r.Intn(5) == 0
+	depth := 3
+	if deep {
+		depth = 5
+	}
+	root := genTree(r, depth, &cnt, nil, "app", typed, version, deep)
+	return root, version
+}
+
+// randomPolicies gives some commands their own error policy (set in their initializer) and decides whether the
+// application's policy is assigned late (after the declarations)
+func randomPolicies(r *rand.Rand, app *drive.App) {
+	pols := []flag.ErrorHandling{flag.ContinueOnError, flag.ExitOnError, flag.PanicOnError}
+	app.PolicyLate = r.Intn(6) == 0
+	var walk func(t *drive.Cmd)
+	walk = func(t *drive.Cmd) {
+		if t.Parent != nil && r.Intn(6) == 0 {
+			p := pols[r.Intn(3)]
+			t.Policy = &p
+		} else {
+			t.Policy = nil
+		}
+		for _, k := range t.Kids {
+			walk(k)
+		}
+	}
+	walk(app.Root)
 }
 
 // checkRun verifies the RUN expectation: exact event sequence, per-level bindings admitted, other levels untouched
@@ -331,19 +366,26 @@ func init() {
 }
 
 func runC04(c *core.Ctx) {
-	root, _ := treeFor(c, "C04", 10, false)
-	argv, levels := treeInvocation(c.R, root, false, 33)
+	root, version := treeFor(c, "C04", 10, false)
+	argv, levels := treeInvocation(c.R, root, version, 33)
 	if hasHelp(argv) {
 		return
 	}
-	e := expectTree(root, argv, false)
+	e := expectTree(root, argv, version)
 	d := treeDesc{Tree: treeStr(root), Argv: argv, Expect: e.kind}
+	if version {
+		d.Note = "version flag -V/--version declared on the application"
+	}
 	if e.unclaimed {
 		c.Inc("unclaimed")
 		return
 	}
+	if e.kind == "VERSION" {
+		c.Inc("skipped_version_request") // C14
+		return
+	}
 	c.Journal(d)
-	o := drive.Run(&drive.App{Root: root, Policy: flag.ContinueOnError}, argv)
+	o := drive.Run(&drive.App{Root: root, Policy: flag.ContinueOnError, Version: version}, argv)
 	c.LibDone()
 	c.Eval()
 	if len(levels) >= 2 || e.kind == "REJECT" {
@@ -353,7 +395,7 @@ func runC04(c *core.Ctx) {
 	c.Max("path_depth", len(levels))
 	switch e.kind {
 	case "RUN":
-		if !checkRun(c, e, o, false) {
+		if !checkRun(c, e, o, version) {
 			return
 		}
 		c.Inc(fmt.Sprintf("ran_at_depth_%d", len(e.path)))
@@ -403,9 +445,9 @@ func init() {
 
 func runC07(c *core.Ctx) {
 	typed := (c.Index/10)%2 == 1
-	root, _ := treeFor(c, "C07", 10, typed)
+	root, version := treeFor(c, "C07", 10, typed)
 	mut := 60
-	argv, levels := treeInvocation(c.R, root, false, mut)
+	argv, levels := treeInvocation(c.R, root, version, mut)
 	if c.R.Intn(8) == 0 {
 		// an unknown word where a subcommand could be
 		argv = append(argv, []string{"nosuchcmd", "-y", "--nope", "c999"}[c.R.Intn(4)])
@@ -414,16 +456,20 @@ func runC07(c *core.Ctx) {
 		return
 	}
 	policy := []flag.ErrorHandling{flag.ContinueOnError, flag.ExitOnError, flag.PanicOnError}[c.R.Intn(3)]
-	e := expectTree(root, argv, false)
+	e := expectTree(root, argv, version)
 	d := treeDesc{Tree: treeStr(root), Argv: argv, Policy: policyName(policy)}
 	if e.unclaimed {
 		c.Inc("unclaimed")
 		return
 	}
+	if e.kind == "VERSION" {
+		c.Inc("skipped_version_request") // C14
+		return
+	}
 	// twin: recording mode, ContinueOnError
 	d.Note = "twin (recording types, ContinueOnError)"
 	c.Journal(d)
-	tw := drive.Run(&drive.App{Root: root, Policy: flag.ContinueOnError}, argv)
+	tw := drive.Run(&drive.App{Root: root, Policy: flag.ContinueOnError, Version: version}, argv)
 	c.LibDone()
 	c.Eval()
 	kind, node := e.kind, e.node
@@ -467,9 +513,16 @@ func runC07(c *core.Ctx) {
 			}
 		}
 	}
+	app := &drive.App{Root: root, Policy: policy, Builtin: typed, Version: version}
+	randomPolicies(c.R, app) // some commands set their own policy; sometimes the app's is assigned after the declarations
 	d.Note, d.Expect = "", kind
+	if kind == "REJECT" {
+		policy = app.PolicyAt(node)
+		d.Policy = fmt.Sprintf("%s at the rejecting command (application: %s, assigned late: %v)", policyName(policy), policyName(app.Policy), app.PolicyLate)
+	}
 	c.Journal(d)
-	o := drive.Run(&drive.App{Root: root, Policy: policy, Builtin: typed}, argv)
+	o := drive.Run(app, argv)
+	d.Policy = policyName(policy)
 	c.LibDone()
 	c.Eval()
 	c.Nontrivial(d.Tree, fmt.Sprintf("%q", argv), d.Policy)
@@ -479,7 +532,7 @@ func runC07(c *core.Ctx) {
 				c.Violation(fmt.Sprintf("accepted invocation: expected %s and nil; observed events=%s err=%v panic=%v", runEvents(e.path, e.node), o.EventStr(), o.Err, o.Pan), nil, nil)
 				return
 			}
-		} else if !checkRun(c, e, o, false) {
+		} else if !checkRun(c, e, o, version) {
 			return
 		}
 		c.Inc("accepted_" + d.Policy)
@@ -598,7 +651,13 @@ func c14One(c *core.Ctx, root *drive.Cmd, version bool, policy flag.ErrorHandlin
 		return
 	}
 	c.Journal(d)
-	o := drive.Run(&drive.App{Root: root, Policy: policy, Version: version}, argv)
+	app := &drive.App{Root: root, Policy: policy, Version: version}
+	randomPolicies(c.R, app)
+	if e.node != nil && e.kind != "RUN" {
+		policy = app.PolicyAt(e.node) // help, version and rejections follow the policy of the command that decides
+		d.Policy = policyName(policy)
+	}
+	o := drive.Run(app, argv)
 	c.LibDone()
 	c.Eval()
 	c.Nontrivial(d.Tree, fmt.Sprintf("%q", argv), d.Policy)
